@@ -52,10 +52,11 @@ func (im *vimpl) lookup(ctx context.Context) *callRun {
 	defer im.mu.Unlock()
 	if md, ok := metadata.FromIncomingContext(ctx); ok {
 		if v := md.Get("vk-call"); len(v) > 0 {
-			if c := im.calls[v[0]]; c != nil {
-				return c
-			}
+			return im.calls[v[0]]
 		}
+	}
+	if im.only != nil && im.only.sc.ReqMD {
+		return nil
 	}
 	return im.only
 }
@@ -214,7 +215,7 @@ type callRun struct {
 	sHdr   [2]metadata.MD
 	sTrl   [2]metadata.MD
 
-	cs, cr, h *actor
+	cs, cs2, cr, h *actor
 	hStarted  chan struct{}
 	hDone     int32
 
@@ -281,6 +282,7 @@ func newCallRun(e *Engine, sc *Script, id int, seed int64) *callRun {
 		c.sts = append(c.sts, genStatus(r, cls))
 	}
 	c.cs = newActor("cs", "c", sc.CS)
+	c.cs2 = newActor("cs2", "c", sc.CS2)
 	c.cr = newActor("cr", "c", sc.CR)
 	c.h = newActor("h", "h", sc.H)
 	return c
